@@ -95,3 +95,89 @@ def run_corpus(v):
         rp = REPLAYS[f["id"]]()
         if rp is not None:
             v.finding(f["id"], f["what"], {"lane": "corpus", **rp})
+
+
+# ---- C17 (generics); the classes are defined here, in a module without `from __future__ import annotations`
+from typing import Annotated as _Annotated, Generic as _Generic, List as _List, TypeVar as _TypeVar
+
+_T = _TypeVar("T")
+_U = _TypeVar("U")
+_T_again = _TypeVar("T")
+
+
+@attrs.define
+class _GA(_Generic[_T]):
+    x: _Annotated[_T, "m"]
+
+
+@attrs.define
+class _GBase(_Generic[_U]):
+    y: _U
+
+
+@attrs.define
+class _GChild(_GBase[_T], _Generic[_T]):
+    z: _T
+
+
+@attrs.define
+class _GBase2(_Generic[_T_again]):
+    y: _T_again
+
+
+@attrs.define
+class _GChild2(_GBase2[int], _Generic[_T]):
+    z: _T
+
+
+class T:          # a CLASS named like the TypeVar
+    def __init__(self, v):
+        self.v = v
+
+
+@attrs.define
+class _GNamed(_Generic[_T]):
+    xs: _List[T]
+    y: _T
+
+
+def _try(f):
+    try:
+        return ("ok", f())
+    except Exception as e:
+        return ("err", f"{type(e).__name__}: {e}"[:90])
+
+
+def f25():
+    from cattrs import Converter
+    r = _try(lambda: Converter().structure({"x": "5"}, _GA[int]))
+    if r != ("ok", _GA(5)):
+        return {"python_repro": "G(Generic[T]) with x: Annotated[T, 'm']; Converter().structure({'x': '5'}, G[int])", "observed": repr(r), "expected": "G(x=5)"}
+
+
+def f26():
+    from cattrs import Converter
+    r = _try(lambda: Converter().structure({"y": "1", "z": "2"}, _GChild[int]))
+    if r != ("ok", _GChild(1, 2)):
+        return {"python_repro": "Base(Generic[U]): y: U; Child(Base[T], Generic[T]): z: T; structure({'y': '1', 'z': '2'}, Child[int])", "observed": repr(r)}
+
+
+def f14():
+    from cattrs import Converter
+    r = _try(lambda: Converter().structure({"y": "1", "z": "2"}, _GChild2[str]))
+    if r != ("ok", _GChild2(1, "2")):
+        return {"python_repro": "Base(Generic[T']) (another TypeVar named T): y: T'; Child(Base[int], Generic[T]): z: T; structure({'y': '1', 'z': '2'}, Child[str])",
+                "observed": repr(r), "expected": "Child(y=1, z='2')"}
+
+
+def f13():
+    from cattrs import Converter
+    c = Converter()
+    c.register_structure_hook(T, lambda v, _: T(v))
+    r = _try(lambda: c.structure({"xs": ["1"], "y": "2"}, _GNamed[int]))
+    if r[0] != "ok" or not isinstance(r[1].xs[0], T):
+        return {"python_repro": "class T (a class); G(Generic[T~]): xs: List[T]; y: T~; structure({'xs': ['1'], 'y': '2'}, G[int])", "observed": repr(r),
+                "expected": "xs holds instances of class T"}
+
+
+REPLAYS.update({"F25": f25, "F26": f26, "F14": f14, "F13": f13})
